@@ -15,9 +15,25 @@ def main():
         from harness import setup
         sys.exit(setup.main())
     mod = importlib.import_module("harness.%s" % a.prop.lower())
-    if a.replay:
-        sys.exit(mod.replay(a.replay))
-    sys.exit(mod.run(a.tier))
+    try:
+        rc = mod.replay(a.replay) if a.replay else mod.run(a.tier)
+    except SystemExit:
+        raise
+    except BaseException:   # fail closed: a check that cannot finish has not shown the property
+        import json
+        import traceback
+        from . import lib
+        tb = traceback.format_exc()
+        print(tb, flush=True)
+        d = lib.mkdir(os.path.join(lib.BUILD, a.prop))
+        path = os.path.join(d, "replay_crash.json")
+        with open(path, "w") as f:
+            json.dump({"property": a.prop, "kind": "obligation",
+                       "theorem_or_correspondence": "the check itself raised an exception while exercising the implementation "
+                                                    "(the machinery could not complete, so nothing was shown)", "traceback": tb[-4000:]}, f, indent=1)
+        print("VIOLATION property=%s replay=%s no-failing-input-found" % (a.prop, path), flush=True)
+        rc = 1
+    sys.exit(rc)
 
 
 if __name__ == "__main__":
